@@ -260,7 +260,9 @@ def run(repo, rep):
         if obj is None:
             probs.append('a path leaves command_set unset')
             continue
-        if s_.field('EXT:' + obj, 'CommandField') != 'self.command_field':
+        if any(cn in ('+self.command_field is None', '-self.command_field is not None') for cn in s_.conds):
+            continue      # the abstract base (no command field of its own): not a message that is sent
+        if s_.field('EXT:' + obj, 'CommandField') not in ('self.command_field', 'int(self.command_field)'):
             probs.append('CommandField is not set from the class constant')
         if s_.field('EXT:' + obj, 'CommandDataSetType') != str(ps3_7_no_dataset()):
             probs.append('a new message does not start as "no data set" (CommandDataSetType %s)'
